@@ -5,14 +5,16 @@ What is extracted on every run (and bridged to the model `SnowModel.Bounded` by
   * `random_number`: callee and the three argument expressions of `random.randrange(min, max + 1, step)`,
     the default of `step`;
   * `parse_weight_str`: the `rstrip("%")` argument, the `isinstance(…, str)` guard, `float(…)`;
-  * `choice`: the guard `if probability:`, what it assigns, and the returned tuple
-    `(probability or when, pick)`;
+  * `choice`: the guard `if probability is not None:`, what it assigns, and the returned tuples
+    `(probability, pick)` / `(when, pick)`;
   * `weighted_choice`: the `random.choices(options, weights, k=1)[0]` call and which tuple
     component is the weight;
   * `random_choice`: the three selection calls (plain list / `choice:` items / mapping) and the
     order `(weight, key)` of the mapping path;
-  * `parse_datetimespec` / `datetime`: the call kind used to attach a zone (`replace` vs `astimezone`);
-  * `datetime_between`: both bounds go through `self.datetime`, the order comparison, the Faker call;
+  * `parse_datetimespec` / `datetime`: the call kind used to attach a zone (`replace` vs `astimezone`,
+    or the guarded pair `astimezone if dt.utcoffset() … else replace`);
+  * `datetime_between`: both bounds go through `self.datetime`, the order comparison, the equal-bounds
+    comparison and what it returns, the Faker call;
   * `date_between`: the dispatch guard of `try_parse_date`, the Faker call, the swallowed message.
 """
 import ast
@@ -93,16 +95,20 @@ def _bounded(tree):
     body = _body_without_doc(f)
     out += _list_def("choiceBody", [ast.unparse(s).replace("\n", " ; ") for s in body],
                      "statements of `choice` (guard, parse, returned tuple)")
-    ret = _only([s for s in body if isinstance(s, ast.Return)], "return in choice")
-    if not isinstance(ret.value, ast.Tuple) or len(ret.value.elts) != 2:
-        raise PinError("choice no longer returns a pair")
-    w = ret.value.elts[0]
-    if isinstance(w, ast.BoolOp):
-        ops = [type(w.op).__name__] + [ast.unparse(v) for v in w.values]
-    else:
-        ops = ["Expr", ast.unparse(w)]
-    out += _list_def("choiceWeightExpr", ops, "first component of the pair returned by `choice`")
-    out += _str_def("choicePickExpr", ast.unparse(ret.value.elts[1]))
+    rets = sorted((n for n in ast.walk(f) if isinstance(n, ast.Return)), key=lambda n: (n.lineno, n.col_offset))
+    if not rets:
+        raise PinError("choice has no return")
+    wexprs, pexprs = [], []
+    for ret in rets:
+        if not isinstance(ret.value, ast.Tuple) or len(ret.value.elts) != 2:
+            raise PinError("choice no longer returns a pair")
+        w = ret.value.elts[0]
+        wexprs.append(ast.unparse(w))
+        pexprs.append(ast.unparse(ret.value.elts[1]))
+    guards = [ast.unparse(n.test) for n in ast.walk(f) if isinstance(n, ast.If)]
+    out += _list_def("choiceGuards", guards, "the `if` conditions of `choice`")
+    out += _list_def("choiceWeightExprs", wexprs, "first component of each pair returned by `choice`, in source order")
+    out += _list_def("choicePickExprs", pexprs)
 
     # ---------------------------------------------------------------- weighted_choice
     f = find_func(tree, "weighted_choice")
@@ -133,17 +139,32 @@ def _bounded(tree):
                 [ast.unparse(a) for a in n.args] + [f"{k.arg}={ast.unparse(k.value)}" for k in n.keywords]) + ")")
     out += _list_def("parseSpecTzCalls", kinds, "zone-attaching calls in parse_datetimespec")
     f = find_func(funcs, "datetime")
-    zone_calls = []
-    for n in ast.walk(f):
-        if isinstance(n, ast.Assign) and len(n.targets) == 1 and ast.unparse(n.targets[0]) == "dt":
-            v = n.value
+    def _zone_call(stmt):
+        if isinstance(stmt, ast.Assign) and len(stmt.targets) == 1 and ast.unparse(stmt.targets[0]) == "dt":
+            v = stmt.value
             if isinstance(v, ast.Call) and isinstance(v.func, ast.Attribute) and ast.unparse(v.func.value) == "dt":
-                zone_calls.append(v)
-    zc = _only(zone_calls, "`dt = dt.<method>(…)` in datetime()")
-    out += _str_def("datetimeTzCall", zc.func.attr,
-                    "method used by datetime() to attach the target zone to the parsed value")
-    out += _list_def("datetimeTzCallArgs",
-                     [ast.unparse(a) for a in zc.args] + [f"{k.arg}={ast.unparse(k.value)}" for k in zc.keywords])
+                return v
+        return None
+
+    def _call_args(v):
+        return [ast.unparse(a) for a in v.args] + [f"{k.arg}={ast.unparse(k.value)}" for k in v.keywords]
+
+    zone_calls = [n for n in ast.walk(f) if isinstance(n, ast.Assign) and _zone_call(n) is not None]
+    guarded = [n for n in ast.walk(f) if isinstance(n, ast.If) and len(n.body) == 1 and len(n.orelse) == 1
+               and _zone_call(n.body[0]) is not None and _zone_call(n.orelse[0]) is not None]
+    if len(zone_calls) == 1 and not guarded:
+        zc = _zone_call(zone_calls[0])
+        kind, args = zc.func.attr, _call_args(zc)
+    elif len(zone_calls) == 2 and len(guarded) == 1:
+        g = guarded[0]
+        a, b = _zone_call(g.body[0]), _zone_call(g.orelse[0])
+        kind = f"if {ast.unparse(g.test)}: {a.func.attr} else: {b.func.attr}"
+        args = _call_args(a) + ["|"] + _call_args(b)
+    else:
+        raise PinError("datetime(): the `dt = dt.<method>(…)` zone attachment has an unexpected shape")
+    out += _str_def("datetimeTzCall", kind,
+                    "how datetime() attaches the target zone to the parsed value (method, or guarded pair of methods)")
+    out += _list_def("datetimeTzCallArgs", args)
     first = _body_without_doc(f)[0]
     out += _str_def("datetimeZoneNormalise", ast.unparse(first), "first statement of datetime()")
 
@@ -153,10 +174,17 @@ def _bounded(tree):
     out += _list_def("datetimeBetweenBody", [ast.unparse(s).replace("\n", " ; ") for s in body],
                      "statements of datetime_between")
     ifs = [s for s in body if isinstance(s, ast.If)]
-    i = _only(ifs, "if in datetime_between")
+    if len(ifs) != 2:
+        raise PinError(f"datetime_between: expected the order check and the equal-bounds check, found {len(ifs)} ifs")
+    i = ifs[0]
     if i.orelse or len(i.body) != 1 or not isinstance(i.body[0], ast.Raise):
         raise PinError("datetime_between: the order check is no longer `if …: raise …`")
     out += cond_pin(i.test, ["end_date", "start_date"], "orderCond")
+    q = ifs[1]
+    if q.orelse or len(q.body) != 1 or not isinstance(q.body[0], ast.Return):
+        raise PinError("datetime_between: the equal-bounds check is no longer `if …: return …`")
+    out += cond_pin(q.test, ["end_date", "start_date"], "equalCond")
+    out += _str_def("equalReturn", ast.unparse(q.body[0].value), "what is returned for equal bounds")
 
     # ---------------------------------------------------------------- date_between
     f = find_func(funcs, "date_between")
